@@ -100,6 +100,7 @@ const scribbleByte = 0xEE
 type StubPC struct {
 	t          *track.T
 	contentOff bool
+	poison     func(data []byte, where, detail string)
 	conn   net.Conn
 	Got    []byte
 	Closed int
@@ -110,7 +111,7 @@ func (s *StubPC) Parse(data []byte) error {
 	s.t.Use(data, "ParserCloser.Parse")
 	if !s.contentOff {
 		if i := track.HasPoison(data); i >= 0 {
-			s.t.PoisonRead(data, "ParserCloser.Parse", fmt.Sprintf(" (%q, first at byte %d)", abbreviate(data, 48), i))
+			s.poison(data, "ParserCloser.Parse", fmt.Sprintf(" (%q, first at byte %d)", abbreviate(data, 48), i))
 		}
 	}
 	s.Got = append(s.Got, data...)
@@ -137,13 +138,24 @@ func (e *Env) RunFeeds(c FeedCase, opt RunOpt) *FeedResult {
 	// after it went back to the pool - also when no allocator call and no observation point sits
 	// between the Free and the read (free-then-copy).
 	out.ContentOff = bytes.IndexByte(c.Stream, track.PoisonByte) >= 0
+	// Only the first poison observation of a run is reported: the later ones (the poisoned tail
+	// parsed into a header key, then handed to the handler ...) are its consequences and would
+	// only multiply the signatures of one defect.
+	poisonSeen := false
+	poison := func(data []byte, where, detail string) {
+		if !poisonSeen {
+			poisonSeen = true
+			t.PoisonRead(data, where, detail)
+		}
+	}
+	stub.poison = poison
 	reported := func(where string, s string) {
 		if out.ContentOff || len(s) == 0 {
 			return
 		}
 		out.Reported++
 		if i := strings.IndexByte(s, track.PoisonByte); i >= 0 {
-			t.PoisonRead(nil, where, fmt.Sprintf(" (%q, first at byte %d)", abbreviate([]byte(s), 48), i))
+			poison(nil, where, fmt.Sprintf(" (%q, first at byte %d)", abbreviate([]byte(s), 48), i))
 		}
 		if opt.Policy == track.Stale && strings.IndexByte(s, track.StaleByte) >= 0 && bytes.IndexByte(c.Stream, track.StaleByte) < 0 {
 			out.StaleSeen++
@@ -240,14 +252,18 @@ func (e *Env) RunFeeds(c FeedCase, opt RunOpt) *FeedResult {
 			out.TailChecks++
 			want := c.Stream[fed-len(cached) : fed]
 			if !bytes.Equal(cached, want) {
-				poison, scribble, other := -1, -1, -1
+				poisonAt, scribble, other := -1, -1, -1
 				for i := range cached {
 					switch {
 					case cached[i] == want[i]:
-					case cached[i] == track.PoisonByte && poison < 0:
-						poison = i
-					case cached[i] == scribbleByte && scribble < 0:
-						scribble = i
+					case cached[i] == track.PoisonByte:
+						if poisonAt < 0 {
+							poisonAt = i
+						}
+					case cached[i] == scribbleByte:
+						if scribble < 0 {
+							scribble = i
+						}
 					case cached[i] == track.StaleByte && opt.Policy == track.Stale:
 						out.StaleSeen++
 					case other < 0:
@@ -255,8 +271,8 @@ func (e *Env) RunFeeds(c FeedCase, opt RunOpt) *FeedResult {
 					}
 				}
 				detail := fmt.Sprintf(" after Parse call %d (%d bytes fed; cache %q, input tail %q)", out.Reads, fed, abbreviate(cached, 48), abbreviate(want, 48))
-				if poison >= 0 {
-					t.PoisonRead(cached, "Parser.bytesCached", detail)
+				if poisonAt >= 0 {
+					poison(cached, "Parser.bytesCached", detail)
 				}
 				if scribble >= 0 {
 					t.Note("read-buffer-retained", "read-buffer-retained use=Parser.bytesCached",
@@ -271,7 +287,7 @@ func (e *Env) RunFeeds(c FeedCase, opt RunOpt) *FeedResult {
 			t.Use(b, "Parser.pendingBody")
 			out.Reported++
 			if i := track.HasPoison(b); i >= 0 {
-				t.PoisonRead(b, "Parser.pendingBody", fmt.Sprintf(" after Parse call %d (%q, first at byte %d)", out.Reads, abbreviate(b, 48), i))
+				poison(b, "Parser.pendingBody", fmt.Sprintf(" after Parse call %d (%q, first at byte %d)", out.Reads, abbreviate(b, 48), i))
 			}
 		}
 	}
